@@ -171,6 +171,8 @@ def cop(op):
                                                 for d, x in zip(rows, ws)))
     if t == "snapp":
         return "OSnapP %d" % op[1]
+    if t == "clone":
+        return "OClone %d" % op[1]
     raise ValueError(t)
 
 
